@@ -35,12 +35,15 @@ PROPS = {
     "C09": {
         "modules": ["specs.socket_model", "specs.opaque", "contracts.socketutil", "contracts.server_instances"],
         "contracts": ["Pyro5.server.Daemon._getInstance"],
+        "lemmas": ["C09:instance-tables-frame"],
         "harness": "replay/c09.py",
         "explanation": "_getInstance verified against the tables `class -> instance` of the daemon (single) and of the connection (session): "
                        "existing non-None entry reused, otherwise exactly one creation stored and returned, other keys and the other table "
                        "untouched, percall stores nothing, failing creations store nothing, creator calls == creations; every access to the "
                        "daemon table and every creation in single mode happens while holding create_single_instance_lock (monitor obligation), "
-                       "which gives one instance per daemon for every interleaving",
+                       "which gives one instance per daemon for every interleaving.  Lemma instance-tables-frame (syntactic, on the AST of the current tree): no function of the package other than "
+                       "Daemon.__init__ / _getInstance (and SocketConnection.__init__ / close for the session table) rebinds, mutates or passes on either instance table (pure reads are "
+                       "allowed), so nothing else can drop or replace an instance between two calls",
         "assumptions": ["instances are opaque objects (truthiness/equality uninterpreted)", "threading.Lock provides mutual exclusion; "
                         "the step from `all accesses and the creation are inside one critical section` to `one instance for every interleaving` is the standard monitor argument (DESIGN 2.5), not machine checked",
                         "a connection's session table is only touched by the thread serving that connection"],
@@ -180,10 +183,11 @@ PROPS.update({
         "contracts": [_HR],
         "groups": [{"modules": ["specs.socket_model", "specs.pystruct", "specs.seqdict", "specs.opaque", "specs.daemon_model", "contracts.registry"],
                     "contracts": ["Pyro5.server.Daemon.register", "Pyro5.server.Daemon.unregister", "Pyro5.server.Daemon.uriFor#body",
-                                  "Pyro5.server._pyro_obj_to_auto_proxy", "Pyro5.server.Daemon._unregister_collected"]}],
+                                  "Pyro5.server._pyro_obj_to_auto_proxy", "Pyro5.server.Daemon._unregister_collected"],
+                    "lemmas": ["C16:registry-frame"]}],
         "harness": "replay/dispatch.py",
         "explanation": "dispatch part: the object a request reaches is the registry entry of the request's object id (weak reference unpacked, class instantiated via "
-                       "_getInstance); 'unknown object' is answered only when that entry is None; every invoked member was resolved on that object.  Registry operations (own contract group, stated for one arbitrary id = every id): register puts exactly the new id -> this object (a weak reference to it when weak) into the table, leaves every other id alone, sets _pyroId/_pyroDaemon on the object, takes over an id already in use or re-registers a currently registered object only when forced, never registers a class weakly, refuses (DaemonError / TypeError) without touching the table; unregister (by id or by object) removes exactly that id, never the daemon's own, strips the object's id attributes; uriFor hands out a uri for an object only while its id is registered; the auto-proxy hook replaces an object by one proxy made by its daemon exactly when its id currently designates it (or its class) in the registry and otherwise lets it travel by value; the collection callback of a weak registration (_unregister_collected, bound to the id and to the very weak reference stored) forgets the id exactly while it still holds that reference.",
+                       "_getInstance); 'unknown object' is answered only when that entry is None; every invoked member was resolved on that object.  Registry operations (own contract group, stated for one arbitrary id = every id): register puts exactly the new id -> this object (a weak reference to it when weak) into the table, leaves every other id alone, sets _pyroId/_pyroDaemon on the object, takes over an id already in use or re-registers a currently registered object only when forced, never registers a class weakly, refuses (DaemonError / TypeError) without touching the table; unregister (by id or by object) removes exactly that id, never the daemon's own, strips the object's id attributes; uriFor hands out a uri for an object only while its id is registered; the auto-proxy hook replaces an object by one proxy made by its daemon exactly when its id currently designates it (or its class) in the registry and otherwise lets it travel by value; the collection callback of a weak registration (_unregister_collected, bound to the id and to the very weak reference stored) forgets the id exactly while it still holds that reference.  Lemma registry-frame (syntactic): objectsById is rebound / mutated / passed on only by these functions and the constructor.",
         "assumptions": _COMMON_ASSUME + ["registry contracts: the registered object is a plain Python object (setting / deleting its Pyro attributes runs no user code), sequential "
                                          "semantics, proxyFor and the type-replacement registration with the serializers as declared; whole histories (falsy, weak, re-used "
                                          "ids, garbage collection) only in the bounded native harness", "GC timing of weak references"],
@@ -248,14 +252,17 @@ PROPS.update({
     },
     "C18": {
         "modules": ["specs.socket_model", "specs.seqdict", "specs.opaque", "specs.daemon_model", "contracts.threadpool"],
-        "contracts": ["Pyro5.svr_threads.Pool.process", "Pyro5.svr_threads.Pool.notify_done", "Pyro5.svr_threads.Pool.close", "Pyro5.svr_threads.Worker.run"],
+        "contracts": ["Pyro5.svr_threads.Pool.process", "Pyro5.svr_threads.Pool.notify_done", "Pyro5.svr_threads.Pool.close", "Pyro5.svr_threads.Pool.worker_died",
+                      "Pyro5.svr_threads.Worker.run"],
+        "lemmas": ["C18:pool-state-frame"],
         "harness": "replay/c18.py",
         "explanation": "Pool.process: the job is handed to exactly one worker that was idle or is a newly started one (started only while fewer than THREADPOOL_SIZE exist), "
                        "that worker is busy afterwards; NoFreeWorkersError exactly when nobody is idle and THREADPOOL_SIZE workers exist, with nothing changed; PoolError when "
                        "closed.  notify_done: the worker leaves busy and is idle again or told to exit, never both.  close: closed set, only None handed out and only to "
                        "idle workers, no lock held while joining, never joins itself.  All three keep the monitor invariant (idle, busy disjoint, |idle|+|busy| <= "
-                       "THREADPOOL_SIZE) and access idle/busy/closed only while holding count_lock in one critical section.  Worker.run: the job in the slot is called "
-                       "exactly once, the slot is cleared before the worker reports done and never written while the pool owns it.",
+                       "THREADPOOL_SIZE) and access idle/busy/closed only while holding count_lock in one critical section.  worker_died (a worker whose job ended with a BaseException) only takes that worker out of busy.  Worker.run: the job in the slot is called "
+                       "exactly once, the slot is cleared before the worker reports done and never written while the pool owns it.  Lemma pool-state-frame (syntactic): idle, busy, closed and a "
+                       "worker's job slot are rebound / mutated / passed on only by these functions and the constructors (Worker.process is the three-line hand-off into the slot).",
         "assumptions": ["threading.Lock gives mutual exclusion; M1+M3+sequential invariant => invariant for every interleaving (DESIGN 2.5), not machine checked",
                         "set cardinalities are tracked as ghost integers with the facts card>=1 for a set with a known member",
                         "thread start/exit timing, join time-outs and liveness of close() are outside the technique",
@@ -358,6 +365,7 @@ PROPS.update({
         "contracts": ["Pyro5.server.Daemon._streamResponse#body", "Pyro5.server.DaemonObject.get_next_stream_item", "Pyro5.server.DaemonObject.close_stream",
                       "Pyro5.server.Daemon._clientDisconnect#streams", "Pyro5.server.Daemon._housekeeping#streams",
                       "Pyro5.client._StreamResultIterator.__next__", "Pyro5.client._StreamResultIterator.close"],
+        "lemmas": ["C10:stream-table-frame"],
         "harness": ["replay/c10.py", "replay/c10_sched.py"],
         "explanation": "per-operation contracts over the stream table T : id -> (owner, created, linger start, iterator), stated for one arbitrary id (free constant = "
                        "every id): registration adds exactly one entry (this connection, now, not lingering, the iterator) or nothing; get_next_stream_item returns "
